@@ -27,6 +27,18 @@ def _const_bytes_of(fn, op, depth=0):
     if op["k"] == "const":
         if "bytes" in op:
             return bytes(op["bytes"])
+        if "promoted" in op and depth <= 6:
+            # `line == ""` on two `&str`: the right-hand side is a promoted `&""`
+            pf = None
+            for pid in (op.get("text"), "%s::promoted[%d]" % (op.get("item"), op["promoted"]),
+                        "%s::promoted[%d]" % (fn.id if fn.kind != "promoted" else fn.body.get("of"), op["promoted"])):
+                cand = fn.prog.fns.get(pid)
+                if cand is not None and cand.kind == "promoted":
+                    pf = cand
+                    break
+            if pf is None:
+                return None
+            return _const_bytes_of(pf, {"k": "copy", "place": {"local": 0, "proj": []}}, depth + 1)
         t = op.get("text", "")
         if t.startswith("const "):
             t = t[6:]
